@@ -19,6 +19,7 @@ import copy
 import json
 import os
 import re
+import sys
 
 HERE = os.path.dirname(os.path.abspath(__file__))
 INVENTORY = os.path.join(HERE, "tables", "baseline_fns.json")
@@ -463,7 +464,9 @@ def splice(caller_j, call_bb, callee_j, mode, cont=None, result_local=None, upva
         cont_entry = blocks[Lb]["term"]["t"]
         _thread_try(blocks, callee_j, B0, L0, Lb, res_local, cont_entry, sp)
     except Exception:
-        pass
+        if os.environ.get("RPX_DEBUG_INLINE"):
+            import traceback
+            traceback.print_exc()
     return j
 
 
@@ -510,7 +513,7 @@ def _return_sites(callee_j):
         cur = start
         for _ in range(8):
             tt = blocks[cur].get("term") or {}
-            if tt.get("k") in ("goto", "drop") and tt.get("t") in rets and (tt.get("k") == "goto" or not blocks[tt["t"]].get("stmts")):
+            if tt.get("k") in ("goto", "drop") and tt.get("t") in rets and (tt.get("k") == "goto" or not any(st.get("k") == "assign" for st in blocks[tt["t"]].get("stmts", []))):
                 sites.append((cur, var))
                 break
             if tt.get("k") in ("goto", "drop") and "t" in tt:
@@ -519,7 +522,7 @@ def _return_sites(callee_j):
                     # an empty join block in front of the return, shared with the other variant's path: this block is still the last
                     # one that belongs to this variant alone
                     nt = blocks[nxt].get("term") or {}
-                    if not blocks[nxt].get("stmts") and nt.get("k") == "goto" and nt.get("t") in rets:
+                    if not any(st.get("k") == "assign" for st in blocks[nxt].get("stmts", [])) and nt.get("k") == "goto" and nt.get("t") in rets:
                         sites.append((cur, var))
                     break
                 if any(st.get("k") == "assign" and st.get("lhs") == [0] for st in blocks[nxt].get("stmts", [])):
@@ -582,6 +585,8 @@ def _thread_try(blocks, callee_j, B0, L0, Lb, res_local, cont_entry, sp):
     brk_t = tg.get(1, dt["o"] if 1 not in tg else None)
     if cont_t is None or brk_t is None or cont_t == brk_t:
         return
+    if os.environ.get("RPX_DEBUG_INLINE"):
+        print("thread_try", callee_j.get("path"), _return_sites(callee_j), "cont", cont_t, "brk", brk_t, file=sys.stderr)
     for (cb_, var) in _return_sites(callee_j):
         mb = B0 + cb_
         # a copy of the way from the landing to the `?` (its moves, and the drops of the awaited future on the way), block by block
